@@ -341,6 +341,10 @@ pub fn base_model(variant: usize) -> Model {
     let c = Ex::Or(Box::new(Ex::AutNum("AS65001".into())), Box::new(Ex::AutNum("AS65002".into())));
     _ = m.db.filter_sets.insert("FLTR-C".into(), vec!["AS65001 # ours\n                OR AS65002 # a customer\n+               # nothing else".into()]);
     _ = m.filter_exprs.insert("FLTR-C".into(), c);
+    // other attributes of the object folded too, around the filter attribute
+    let r = Ex::AutNum("AS65001".into());
+    _ = m.db.filter_sets.insert("FLTR-R".into(), vec![format!("@foldedremarks {}", r.render())]);
+    _ = m.filter_exprs.insert("FLTR-R".into(), r);
     // filter-set objects the IRR knows but that carry no usable filter: no attribute at all / one that does not parse
     _ = m.db.filter_sets.insert("FLTR-NOFILTER".into(), vec!["@nofilter".into()]);
     _ = m.db.filter_sets.insert("FLTR-BADFILTER".into(), vec!["AS65001 AND AND }".into()]);
@@ -373,6 +377,7 @@ pub fn atoms() -> Vec<Ex> {
         Ex::FilterSet("FLTR-G".into()),
         Ex::FilterSet("FLTR-H".into()),
         Ex::FilterSet("FLTR-C".into()),
+        Ex::FilterSet("FLTR-R".into()),
         Ex::FilterSet("FLTR-U1".into()),
         Ex::FilterSet("FLTR-U2".into()),
         lit4.clone(),
@@ -636,6 +641,41 @@ pub fn run_c11(report: &mut Report, budget: Duration) {
                         *c += 1;
                         if *c <= 1 {
                             bad.push(Bad { key: format!("C11:evaluation-fails:{}", class_of(ex)), what: format!("'{text}' cannot be evaluated although every name exists: {e}"), case });
+                        }
+                    }
+                }
+            }
+            // expressions as people write them: no parentheses, AND binds tighter than OR (RFC 2622 section 5.4)
+            let flat_atoms = [Ex::AutNum("AS65001".into()), Ex::AsSet("AS-A".into()), Ex::RouteSet("RS-X".into()), Ex::AutNum("AS65002".into()), Ex::Lit(vec![("192.0.2.0/24".into(), Op::None), ("198.51.100.0/24".into(), Op::Plus)])];
+            let mut flat_bad: BTreeSet<&'static str> = BTreeSet::new();
+            for (ia, a) in flat_atoms.iter().enumerate() {
+                for (ib, b) in flat_atoms.iter().enumerate() {
+                    for (ic, c) in flat_atoms.iter().enumerate() {
+                        if ia == ib || ib == ic || ia == ic || capped {
+                            continue;
+                        }
+                        for and_first in [true, false] {
+                            let (text, ex, shape) = if and_first {
+                                (format!("{} AND {} OR {}", a.render(), b.render(), c.render()), Ex::Or(Box::new(Ex::And(Box::new(a.clone()), Box::new(b.clone()))), Box::new(c.clone())), "a AND b OR c")
+                            } else {
+                                (format!("{} OR {} AND {}", a.render(), b.render(), c.render()), Ex::Or(Box::new(a.clone()), Box::new(Ex::And(Box::new(b.clone()), Box::new(c.clone())))), "a OR b AND c")
+                            };
+                            let want: BTreeSet<Pfx> = uni.iter().copied().filter(|q| m.member(&ex, *q)).collect();
+                            evals += 1;
+                            let case = json!({"database_variant": variant, "expression": text, "as_sets": m.db.as_sets, "routes4": m.db.routes4, "routes6": m.db.routes6});
+                            match evaluate_guarded(irrd.port, &text, Duration::from_secs(20)) {
+                                Ok(r) => {
+                                    let have = members_of(&r, &uni);
+                                    if have != want && flat_bad.insert(shape) {
+                                        bad.push(Bad { key: format!("C11:wrong-set:unparenthesised:{shape}"), what: format!("'{text}' evaluates to a set that differs from the RPSL semantics (AND binds tighter than OR): {}", diff_desc(&want, &have)), case });
+                                    }
+                                }
+                                Err(e) => {
+                                    if flat_bad.insert("fails") {
+                                        bad.push(Bad { key: format!("C11:evaluation-fails:unparenthesised:{shape}"), what: format!("'{text}': {e}"), case });
+                                    }
+                                }
+                            }
                         }
                     }
                 }
